@@ -256,7 +256,7 @@ def model_node(kind: str, profile: str, idx: int, parent: str, link_target: str)
     if kind == "object":
         return {"k": "object", "id": uid(ident), "parent": parent, "type": CATEGORY if profile != "mixed" else 6,
                 "name": "Contents" if profile != "mixed" else pick(NAMES, 1), "meta": {"min": 0, "full": 2, "mixed": 1}[profile]}
-    present = {"min": 0, "full": ALL_ITEM, "mixed": 0b0101101101}[profile]
+    present = {"min": 0b100, "full": ALL_ITEM, "mixed": 0b0101101101}[profile]   # items in models always carry a type
     if kind == "link":
         present |= 0b101   # asset_id + type
         s = item_spec(present, {"min": 0, "full": 3, "mixed": 2}[profile], k, ident, parent, force_type=LINK)
